@@ -95,6 +95,11 @@ class ApplicationFileScanner:
                 did_error_scanning_files = True
                 break
 
+        # An argument in error means that nothing is to be scanned, so there is
+        # nothing to list either, whatever the arguments before it selected.
+        if did_error_scanning_files:
+            files_to_parse.clear()
+
         # Different spellings of the same path (`a.md`, `./a.md`, `docs/../a.md`)
         # select one file; keep the spelling that sorts first.
         sorted_files_to_parse = []
